@@ -456,7 +456,7 @@ pub fn example_corpus() -> Vec<(String, String)> {
 }
 
 /// Inputs that made the front end panic or mislabel at the pinned commit.
-pub const PAST_FAILURES: [&str; 14] = [
+pub const PAST_FAILURES: [&str; 15] = [
     "tx t() { output { to: A, amount: Ada(99999999999999999999), } }",
     "tx t() { output { to: A, amount: Ada(-9223372036854775809), } }",
     "type T { A(Int,), }",
@@ -471,6 +471,9 @@ pub const PAST_FAILURES: [&str; 14] = [
     "party A;\n\ntx t(q: Int) {\n  output {\n    to: A,\n    amount: Ada(q) +,\n  }\n}\n",
     "// é✓ comment\nparty A;\ntx t() {\n  output { to: B, amount: Ada(1), }\n}\n",
     "tx t() { output { to: \"é✓\", amount: missing_thing, } }",
+    // indexing a local that holds a record: the lowering error message used to embed the Debug form of
+    // the operand with every symbol it resolves to (740 MB for this program, 16 s)
+    "party A;\ntype R { counter: Int, label: Bytes, extra: Int, }\ntx u(q: Int) {\n  locals { rec: R { counter: q, label: 0x00, extra: 2, }, }\n  input source { from: A, min_amount: Ada(rec[0]), }\n  output { to: A, amount: source - fees, }\n}\n",
 ];
 
 fn nested(r: &mut Rng, depth: usize) -> String {
@@ -630,6 +633,11 @@ pub fn run(opts: &Opts, out: &mut Emitter) {
                     kinds.push(kind);
                 }
                 out.case("mutation", || json!({"input": text, "mutations": kinds, "obs": observe(&text)}));
+            }
+            9 if k % 20 == 9 => {
+                // (f) semantic mutations of generated core programs (C13's stream)
+                let (text, kinds, _) = crate::c13::mutated_source(&mut r);
+                out.case("semantic-mutation", || json!({"input": text, "mutations": kinds, "obs": observe(&text)}));
             }
             _ => {
                 let depth = 1 + r.below(64) as usize;
